@@ -1,4 +1,4 @@
-(* Gen/FunOk_C13.v — the header word: the expression assigned to `header` in the current source of packets.create_ccsds_packet,
+(* Gen/FunOk_C13.v — create_ccsds_packet, whole (second theorem), and its header word: the expression assigned to `header` in the current source of packets.create_ccsds_packet,
    turned into Gallina by the translator, is the model's [header_word] (Model/Header.v) of the seven fields.
    Compiled on every C13 run against the freshly generated Gen/Fun_C13.v. *)
 From Coq Require Import ZArith List Bool Lia.
@@ -16,3 +16,33 @@ Proof.
   cbn [Z.ltb Z.compare bind as_int]. reflexivity.
 Qed.
 Print Assumptions gen_header_word_is_model.
+
+(* ---- the whole of create_ccsds_packet: the seven range checks, the header word, its six bytes, the data appended ---- *)
+From SPP Require Import Proofs.HeaderP.
+From Coq Require Import Lia Bool.
+
+Ltac range_check x lo hi :=
+  let A := fresh "A" in let B := fresh "B" in
+  destruct (Z.ltb_spec x lo) as [A|A]; cbn [bind PyEval.truthy orb]; [reflexivity|];
+  rewrite (Z.gtb_ltb x hi); destruct (Z.ltb_spec hi x) as [B|B]; cbn [bind PyEval.truthy orb]; [reflexivity|].
+
+Theorem gen_create_packet_is_model data v t s a f c :
+  gen_create_packet (VBytes data) (VInt v) (VInt t) (VInt s) (VInt a) (VInt f) (VInt c)
+  = match create_packet v t s a f c data with Ok p => Ok (VBytes p) | Err e => Err e end.
+Proof.
+  unfold gen_create_packet, create_packet, out_of.
+  cbn [py_lt py_gt py_len as_int bind].
+  range_check v 0 7. range_check t 0 1. range_check s 0 1. range_check a 0 2047. range_check f 0 3. range_check c 0 16383.
+  range_check (zlen data) 1 65536.
+  cbn [py_sub py_lshift py_bitor py_len arith as_int bind].
+  change (48 - 3) with 45. change (48 - 4) with 44. change (48 - 5) with 43. change (48 - 16) with 32. change (48 - 18) with 30. change (48 - 32) with 16.
+  cbn [Z.ltb Z.compare bind as_int py_bitor].
+  fold (header_word v t s a f c (zlen data - 1)).
+  assert (FO : fields_ok v t s a f c (zlen data - 1)) by (unfold fields_ok; lia).
+  pose proof (header_sum_bound _ _ _ _ _ _ _ FO) as Bd. rewrite <- (header_word_sum _ _ _ _ _ _ _ FO) in Bd.
+  set (hw := header_word v t s a f c (zlen data - 1)) in *.
+  cbn [py_to_bytes_big as_int Z.ltb Z.compare].
+  destruct (Z.ltb_spec hw 0) as [?|_]; [lia|]. change (8 * 6) with 48. destruct (Z.leb_spec (2 ^ 48) hw) as [?|_]; [lia|].
+  cbn [bind py_add]. reflexivity.
+Qed.
+Print Assumptions gen_create_packet_is_model.
